@@ -68,10 +68,30 @@ pub fn noisy_scope(bindings: &[(String, RVal)]) -> Scope {
   bottom.set_entry(&Name::from("zz unrelated"), Value::Boolean(true));
   bottom.set_entry(&Name::from("other"), Value::String("noise".into()));
   let scope = Scope::from(bottom);
+  // nulls - at any depth of a bound value - carry a diagnostic text here, as nulls produced by failed operations do:
+  // the text is not part of the value
+  fn annotate(v: Value, n: &mut u32) -> Value {
+    match v {
+      Value::Null(_) => {
+        *n += 1;
+        Value::Null(Some(format!("diagnostic text {}", n)))
+      }
+      Value::List(items) => Value::List(dmntk_feel::values::Values::new(items.as_vec().iter().map(|i| annotate(i.clone(), n)).collect())),
+      Value::Context(ctx) => {
+        let mut c = FeelContext::default();
+        for (k, e) in ctx.iter() {
+          c.set_entry(k, annotate(e.clone(), n));
+        }
+        Value::Context(c)
+      }
+      other => other,
+    }
+  }
+  let mut n = 0u32;
   let mut mid = FeelContext::default();
   for (k, v) in bindings {
     if let Some(val) = v.to_value() {
-      mid.set_entry(&Name::from(k.as_str()), val);
+      mid.set_entry(&Name::from(k.as_str()), annotate(val, &mut n));
     }
   }
   mid.set_entry(&Name::from("w"), Value::Null(None));
@@ -224,11 +244,11 @@ impl Checker {
       let noisy = noisy_scope(bindings);
       stats.scope_checks.fetch_add(1, Ordering::Relaxed);
       if let Ok(v2) = evaluate(&noisy, node) {
-        if v2 != observed && format!("{}", v2) != format!("{}", observed) {
+        if crate::rval::show_value_full(&v2) != crate::rval::show_value_full(&observed) {
           return Verdict::Violation(
             format!("scope-dependence:{}", node_name(t)),
             format!(
-              "`{}` with {} gives {} in a minimal scope but {} in a scope with unrelated extra entries and stacked contexts",
+              "`{}` with {} gives {} in a minimal scope but {} in a scope with unrelated extra entries, stacked contexts and nulls that carry a diagnostic text",
               text(t),
               show_bindings(bindings),
               show_value(&observed),
